@@ -28,8 +28,12 @@ CHECKS = {
             'exact-count / canonicity / denotation invariants in every state', 'DESIGN.md 2/C06'),
     'C10': (EX[0], EX[1], 'all functions x all care sets x all n up to support+3 x orders',
             'DESIGN.md 2/C10'),
+    'C11': (EX[0], EX[1], 'all functions x all order pairs x target kinds x 7 copy routes; source key '
+            'unchanged; target oracle', 'DESIGN.md 2/C11'),
     'C12': (EX[0], EX[1], 'order pairs x root tuples x formats x flags x target states; refusal '
             'accepted only for documented conflicts', 'DESIGN.md 2/C12'),
+    'C13': (EX[0], EX[1], 'one pair exhaustive; two pairs: all of F(4) x 16 sets canonical, family for '
+            'other configurations; three pairs over relation family', 'DESIGN.md 2/C13'),
     'C18': (EX[0], EX[1], 'all functions, root sets of size 1-2, every view evaluated',
             'DESIGN.md 2/C18'),
 }
